@@ -1,0 +1,28 @@
+//go:build verif
+
+// Contracts for package web, checked by /verif. Comments only.
+package web
+
+// C19: a request counts as loopback only if its remote address splits and the host is a loopback IP.
+//@ func isLoopback props=C19
+//@   requires r != nil
+//@   ensures result == (netsplitok(r.RemoteAddr) && iploopback(nethost(r.RemoteAddr)))
+
+// C19: the protected handler runs iff authentication is disabled, or the
+// request is loopback while loopback authentication is not enforced, or the
+// request carries a session issued by this process (ghost session_err == nil);
+// otherwise exactly one redirect to /login with 303 and the handler does not run.
+//@ func (*Handler).Authn$1 props=C19
+//@   requires h != nil && h.conf != nil && r != nil
+//@   ensures [served-iff-authorised] (called(next) == 1) == (old(h.conf.Dashboard.DisableAuthn) || (!old(h.conf.Dashboard.EnableLoopbackAuthn) && old(netsplitok(r.RemoteAddr) && iploopback(nethost(r.RemoteAddr)))) || session_err == nil)
+//@   ensures [at-most-once] called(next) <= 1
+//@   ensures [redirect] called(next) == 0 ==> n_redirect == 1 && redirect_code == 303 && redirect_url == "/login"
+//@   ensures [no-redirect-when-served] called(next) == 1 ==> n_redirect == 0
+
+// C19: a session is issued only by a POST whose supplied password compared
+// equal (constant-time) to the handler's password; a wrong password never
+// issues a session.
+//@ func (*Handler).Login props=C19
+//@   requires h != nil && h.conf != nil && r != nil && h.templates != nil
+//@   ensures [session-only-after-match] n_session_set > 0 ==> ctc_equal && ctc_b == old(h.password)
+//@   ensures [at-most-one-session] n_session_set <= 1
